@@ -19,6 +19,9 @@ import sys
 import time
 
 ROOT = os.path.dirname(os.path.abspath(__file__))
+# VERIF_SCRATCH: put out/, build/ and evidence/ of this invocation elsewhere (used when a check is run against
+# a mutated copy of the repository, so that the committed evidence is not overwritten)
+WORK = os.environ.get("VERIF_SCRATCH", ROOT)
 sys.path.insert(0, ROOT)
 from checks_config import CHECKS  # noqa: E402
 
@@ -55,7 +58,7 @@ def prepare_modfile(mod):
     if repo == "/repo":
         return []
     src = os.path.join(module_dir(mod), "go.mod")
-    dst_dir = os.path.join(ROOT, "build")
+    dst_dir = os.path.join(WORK, "build")
     os.makedirs(dst_dir, exist_ok=True)
     tag = hashlib.sha1(repo.encode()).hexdigest()[:8]
     dst = os.path.join(dst_dir, "%s-%s.mod" % (mod, tag))
@@ -67,8 +70,8 @@ def prepare_modfile(mod):
 
 def build(mod, race=False, log=None):
     """Build the test binary of a harness module from /repo's current working tree."""
-    os.makedirs(os.path.join(ROOT, "build"), exist_ok=True)
-    out = os.path.join(ROOT, "build", "%s%s-%d.test" % (mod, "-race" if race else "", os.getpid()))
+    os.makedirs(os.path.join(WORK, "build"), exist_ok=True)
+    out = os.path.join(WORK, "build", "%s%s-%d.test" % (mod, "-race" if race else "", os.getpid()))
     cmd = ["go", "test", "-c", "-tags", TAG, "-vet=off", "-o", out] + prepare_modfile(mod)
     if race:
         cmd.insert(2, "-race")
@@ -233,7 +236,7 @@ def merge_stats(pid, stats_list):
 
 
 def write_evidence(pid, tier, seed, cfg, res, merged, wall, nviol):
-    os.makedirs(os.path.join(ROOT, "evidence"), exist_ok=True)
+    os.makedirs(os.path.join(WORK, "evidence"), exist_ok=True)
     cov = {
         "evaluations": merged["evaluations"],
         "distinct_nontrivial": len(merged["nontrivial"]),
@@ -259,7 +262,7 @@ def write_evidence(pid, tier, seed, cfg, res, merged, wall, nviol):
         "wall_s": round(wall, 2),
         "violations": nviol,
     }
-    path = os.path.join(ROOT, "evidence", pid + ".json")
+    path = os.path.join(WORK, "evidence", pid + ".json")
     tmp = path + ".tmp"
     json.dump(ev, open(tmp, "w"), indent=1, default=str)
     os.replace(tmp, path)
@@ -269,7 +272,7 @@ def check(pid, tier):
     t0 = time.time()
     cfg = CHECKS[pid]
     seed = int(os.environ.get("VERIF_SEED", "1") or "1")
-    outdir = os.path.join(ROOT, "out", pid)
+    outdir = os.path.join(WORK, "out", pid)
     shutil.rmtree(outdir, ignore_errors=True)
     os.makedirs(outdir, exist_ok=True)
     res = Result()
@@ -357,7 +360,7 @@ def run_fuzz(pid, r, res, outdir):
     mod = r.get("module", "harness")
     env = env_base()
     env["VERIF_OUT"] = outdir
-    cache = os.path.join(ROOT, "build", "fuzzcache-%s" % r["test"])
+    cache = os.path.join(WORK, "build", "fuzzcache-%s" % r["test"])
     shutil.rmtree(cache, ignore_errors=True)
     cmd = ["go", "test", "-tags", TAG, "-vet=off", "-run", "^$", "-fuzz", "^%s$" % r["test"], "-fuzztime", r.get("fuzztime", "60s"),
            "-test.fuzzcachedir", cache] + prepare_modfile(mod) + ["."]
@@ -391,7 +394,7 @@ def setup():
         if not os.path.isdir(module_dir(mod)):
             continue
         if mod == "legacygen":
-            p = subprocess.run(["go", "build", "-o", os.path.join(ROOT, "build", "legacygen"), "."], cwd=module_dir(mod), env=env_base(),
+            p = subprocess.run(["go", "build", "-o", os.path.join(WORK, "build", "legacygen"), "."], cwd=module_dir(mod), env=env_base(),
                                stdout=subprocess.PIPE, stderr=subprocess.STDOUT, text=True)
             if p.returncode != 0:
                 print(p.stdout[-3000:])
@@ -432,7 +435,7 @@ def main():
     if len(sys.argv) < 2:
         print(__doc__)
         return 2
-    os.makedirs(os.path.join(ROOT, "build"), exist_ok=True)
+    os.makedirs(os.path.join(WORK, "build"), exist_ok=True)
     cmd = sys.argv[1]
     if cmd == "setup":
         return setup()
